@@ -103,6 +103,24 @@ reg('C04', 'harness.arch', design_ref='6/C04',
     stubs=[], assumptions=['as C03'], expect_labels=['C04:fresh-handle', 'C04:same-store', 'C04:settings'])
 for _p in ('C03', 'C04'):
     REGISTRY[_p]['stubs'] = _arch_stubs()
+TWIN_ASSUME = HIST_ASSUME + ['the two twins are built by the same constructor calls; RR draws are coupled (the twin re-uses the symbolic draw of the same step)']
+reg('C16', 'harness.twin', design_ref='6/C16',
+    bounds={'quick': 'histories of 4 calls (RR: 3) in which a symbolic subset of calls raises; 12 decorators x {no archive, cache+dict_archive} x purge; safe decorators: 8 hostile argument witnesses (list, dict, set, objects whose __hash__/__repr__/__reduce_ex__ raise, nested) x 8 keymaps x with/without archive, two calls each',
+            'thorough': 'histories of 5 calls (RR: 4)'},
+    outside='longer histories; exceptions raised by the keymap or archive themselves on the standard decorators',
+    stubs=HIST_STUBS + ['klepto.crypto stubs as C01'], assumptions=TWIN_ASSUME,
+    expect_labels=['C16:same-exception', 'C16:single-evaluation', 'C16:no-trace', 'C16:as-if-not-made', 'C16:safe-result'])
+reg('C18', 'harness.twin', design_ref='6/C18',
+    bounds={'quick': 'histories of 3 calls; before each call side A may receive key() or key()+lookup() on any argument seen so far; 12 decorators x {no archive, cache+dict_archive}; one configuration per decorator with tol set',
+            'thorough': 'histories of 4 calls; keymaps raw/str/pyhash'},
+    outside='longer histories; ignore specifications (the key path itself is C09-C11)', stubs=HIST_STUBS + ['klepto.crypto stubs as C01'],
+    assumptions=TWIN_ASSUME, expect_labels=['C18:lookup', 'C18:no-eval', 'C18:no-change', 'C18:as-if-not-probed', 'C18:wrapped', 'C18:key-stored'])
+reg('C20', 'harness.twin', design_ref='6/C20',
+    bounds={'quick': 'prefix of 2 calls, real dill round trip of the decorated function, one call on the original only, continuation of 2 calls on clone and reference twin; 12 decorators x {no archive, cache+dict_archive, cache+null_archive}',
+            'thorough': 'prefixes of 1-3 calls, continuations of 3 calls'},
+    outside='persistent (file/dir/sql) archives staying shared after the round trip; keymaps other than the default/raw ones',
+    stubs=HIST_STUBS + ['proxies survive real dill through __reduce__ + an in-process registry (the clone holds the same symbolic variables)'],
+    assumptions=TWIN_ASSUME, expect_labels=['C20:equal-after-roundtrip', 'C20:continuation', 'C20:independent', 'C20:configuration'])
 
 _T = 'bounded symbolic execution of the real code (ksym proxies on CPython), branch and obligation queries decided by z3, closed path tree, concrete replay of counterexamples'
 _N = 'trusted: CPython, z3 5.1, the ksym proxies (constant hash + solver-decided equality) and the listed stubs; atoms stand for arbitrary hashable non-fast-type objects; bounds as in evidence.coverage.bounds; no claim outside them'
@@ -120,9 +138,12 @@ TEXT = {
     'C12': {'level': 'for every structure in the family, every dynamic type of every leaf and every tol, the key computed by the real code equals the key of the oracle-rounded arguments (z3 validity over uninterpreted R), the function receives the original objects, tol=None rounds nothing and no structure makes the call fail', 'note': _N, 'technique': _T},
     'C03': {'level': 'for every pre-state reachable by the write prefix and every operation with symbolic arguments within the bound, the real archive returns/raises what the dict oracle does and holds the same contents afterwards (z3 validity), failing operations leave contents unchanged, sibling archives are untouched, copy() is equal and independent', 'note': _N, 'technique': _T},
     'C04': {'level': 'for every write history within the bound and every way of obtaining a second handle, the second handle holds exactly the oracle contents (snapshot values, original key types, same settings) and writes through it reach the first handle', 'note': _N, 'technique': _T},
+    'C16': {'level': 'within the history bounds, a raising call propagates the same exception object after one evaluation and leaves memory, archive and statistics unchanged; every later observable equals that of a twin that never saw the call; safe decorators return F(args) for every hostile witness under every keymap', 'note': _N, 'technique': _T},
+    'C18': {'level': 'within the history bounds, key()/lookup() agree with what calls store, evaluate nothing, change nothing, and a twin that was never probed is indistinguishable afterwards', 'note': _N, 'technique': _T},
+    'C20': {'level': 'within the bounds, the clone obtained through the real dill equals the original (contents, statistics, configuration), is independent in memory, and every later observable equals that of a never-pickled twin', 'note': _N, 'technique': _T},
     'C15': {'level': 'within the history bounds (calls interleaved with dump/load/clear/toggle), info() equals ground-truth counters derived from before/after snapshots of memory and archive', 'note': _N, 'technique': _T},
 }
 NOT_APPLICABLE = [
     {'property_id': p, 'reason': 'check not built yet in this session (planned in DESIGN.md §6); nothing is claimed for it so far'}
-    for p in [ 'C13', 'C14', 'C16', 'C18', 'C19', 'C20']
+    for p in [ 'C13', 'C14', 'C19']
 ]
